@@ -641,6 +641,21 @@ pub fn replay_property(prop: &Property, file: &Path) -> i32 {
     }
 }
 
+/// Run `f` on its own thread and give up waiting after `limit` (the thread is abandoned: a call
+/// that loops without ever yielding cannot be interrupted). `None` = it never returned.
+pub fn with_watchdog<T: Send + 'static>(
+    limit: std::time::Duration,
+    f: impl FnOnce() -> T + Send + 'static,
+) -> Option<T> {
+    let (tx, rx) = std::sync::mpsc::channel();
+    let _ = std::thread::Builder::new()
+        .name("watched-case".into())
+        .spawn(move || {
+            let _ = tx.send(f());
+        });
+    rx.recv_timeout(limit).ok()
+}
+
 /// Monotone index mapping (keeps shrinking effective): `i` in 0..=65535 to 0..len
 pub fn pick_idx(i: u16, len: usize) -> usize {
     if len == 0 {
